@@ -18,6 +18,20 @@ Static types of Python locals:  'pval' (dynamically typed argument), 'optstr' (N
 import ast, sys, re, unicodedata
 from common import *
 import regex_tr
+import failclosed
+
+# the translated functions: one undecorated definition each, bound to its name at run time (their defaults are read and emitted by
+# translate()); the module names they use are the real modules (tools/gen/failclosed.py)
+_A = failclosed.ANY
+_FC_SLUG = {'src': 'oslo_utils/strutils.py', 'mod': 'oslo_utils.strutils',
+            'functions': {'to_slug': {'defaults': {'incoming': 'None', 'errors': _A}}},
+            'imports': {'encodeutils': 'oslo_utils.encodeutils', 'unicodedata': 'unicodedata', 're': 're'}}
+FAILCLOSED = {'generate_slug': [dict(_FC_SLUG, functions={'to_slug': {'defaults': None}})],      # only the regexes of to_slug are read there
+              'generate_code': [{'src': 'oslo_utils/encodeutils.py', 'mod': 'oslo_utils.encodeutils',
+                                 'functions': {'safe_decode': {'defaults': {'incoming': 'None', 'errors': _A}},
+                                               'safe_encode': {'defaults': {'incoming': 'None', 'encoding': _A, 'errors': _A}},
+                                               'to_utf8': {'defaults': {}}},
+                                 'imports': {'sys': 'sys'}}, _FC_SLUG]}
 
 
 class Un(GenError):
@@ -317,6 +331,7 @@ def used_regexes():
 
 
 def generate_slug():
+    failclosed.check_all(FAILCLOSED['generate_slug'])
     m = repo_import('oslo_utils.strutils')
     out = [HEADER % ('oslo_utils/strutils.py', 'tools/gen/gen_C16.py')]
     out.append('Require Import OV.Base.Bytes OV.Base.PyInt OV.Base.Regex.')
@@ -355,6 +370,7 @@ def slug_subs():
 
 
 def generate_code():
+    failclosed.check_all(FAILCLOSED['generate_code'])
     enc_tree = repo_ast('oslo_utils/encodeutils.py')
     str_tree = repo_ast('oslo_utils/strutils.py')
     out = [HEADER % ('oslo_utils/encodeutils.py, oslo_utils/strutils.py', 'tools/gen/gen_C16.py')]
